@@ -20,6 +20,7 @@ import Okane.Drv.C19
 import Okane.Drv.C20
 import Okane.Drv.Process
 import Okane.Drv.Dec96
+import Okane.Drv.CsvText
 
 /-- `drv <command> [args]`: cases on stdin, one per line; results on stdout, one per line.
 `cNN` dispatches to the property's own driver module (`Okane/Drv/CNN.lean`), which may use `args`
@@ -48,4 +49,5 @@ def main (args : List String) : IO UInt32 := do
   | "c20" :: rest => Okane.Drv.C20.main rest; return 0
   | "process" :: _ => Okane.Drv.Process.main; return 0
   | "dec96" :: rest => Okane.Drv.Dec96.main rest; return 0
+  | "csvtext" :: rest => Okane.Drv.CsvText.main rest; return 0
   | _ => IO.eprintln "usage: drv <command> [args]  (cases on stdin)"; return 2
